@@ -12,6 +12,7 @@ from __future__ import annotations
 
 import ast
 import builtins
+import re as _re
 from typing import Callable, Dict, Iterable, List, Optional, Sequence, Set, Tuple
 
 from sa.astx import assigned_targets, call_attr, call_name, dotted, src, statements, walk_local
@@ -63,6 +64,11 @@ _BYTES_METHODS = {"split", "rsplit", "strip", "lstrip", "rstrip", "isdigit", "is
                   "get", "items", "keys", "values", "isascii", "isdecimal", "isnumeric", "swapcase", "casefold", "zfill",
                   "removeprefix", "removesuffix"}
 _VALUE_TYPES = (bytes, bytearray, str, list, tuple, dict, memoryview, int, frozenset, set)
+
+
+_STDLIB_PURE = {"re.compile": _re.compile, "re.match": _re.match, "re.fullmatch": _re.fullmatch, "re.search": _re.search, "re.sub": _re.sub,
+                "re.split": _re.split, "re.findall": _re.findall, "re.escape": _re.escape, "bytes.maketrans": bytes.maketrans,
+                "bytes.fromhex": bytes.fromhex, "bytearray.fromhex": bytearray.fromhex, "str.maketrans": str.maketrans}
 
 
 class FuncRef:
@@ -146,6 +152,8 @@ class Interp:
             raise Unknown(node.id)
         if isinstance(node, ast.Attribute):
             d = dotted(node)
+            if d is not None and d.startswith("re.") and d[3:].isupper() and isinstance(getattr(_re, d[3:], None), _re.RegexFlag) and "re" not in env:
+                return getattr(_re, d[3:])
             if d is not None and d in env:
                 v = env[d]
                 if v is Unknown:
@@ -297,7 +305,20 @@ class Interp:
                 return list(r) if nm in ("enumerate", "zip") else r
             raise Unknown("call " + nm)
         if isinstance(f, ast.Attribute):
+            d = dotted(f)
+            if d in _STDLIB_PURE and d.split(".")[0] not in env:
+                # stdlib semantics on evaluated (constant) arguments - CPython's re / bytes, not repository code
+                args = [ev(a, env) for a in node.args]
+                kw = {k.arg: ev(k.value, env) for k in node.keywords}
+                try:
+                    return _STDLIB_PURE[d](*args, **kw)
+                except _re.error:
+                    raise Unsupported("invalid regular expression")
             recv = ev(f.value, env)
+            if isinstance(recv, _re.Pattern) and f.attr in ("match", "fullmatch", "search", "sub", "subn", "split", "findall"):
+                return getattr(recv, f.attr)(*[ev(a, env) for a in node.args], **{k.arg: ev(k.value, env) for k in node.keywords})
+            if isinstance(recv, _re.Match) and f.attr in ("group", "groups", "groupdict", "start", "end", "span"):
+                return getattr(recv, f.attr)(*[ev(a, env) for a in node.args])
             if isinstance(recv, _VALUE_TYPES) and f.attr in _BYTES_METHODS and hasattr(recv, f.attr):
                 args = [ev(a, env) for a in node.args]
                 kw = {k.arg: ev(k.value, env) for k in node.keywords}
@@ -799,8 +820,29 @@ def http_interp(ctx) -> Interp:
     from sa.astx import module_consts
     consts = module_consts(HH)
     consts.update(module_consts(H))
-    return Interp(funcs=module_funcs(A, HH, H), consts=consts, exc_bases=exc_bases_of(A, HH, H),
-                  models={"networkString": lambda s: s.encode("ascii")})
+    I = Interp(funcs=module_funcs(A, HH, H), consts=consts, exc_bases=exc_bases_of(A, HH, H),
+               models={"networkString": lambda s: s.encode("ascii")})
+    for m in (A, HH, H):
+        add_module_values(I, m)
+    return I
+
+
+def add_module_values(I: Interp, mod) -> None:
+    """Module-level ``NAME = <pure expression>`` that sa.astx.module_consts cannot evaluate (precompiled
+    regular expressions, translate tables, frozensets of computed members ...)."""
+    for st in mod.tree.body:
+        tgt = val = None
+        if isinstance(st, ast.Assign) and len(st.targets) == 1 and isinstance(st.targets[0], ast.Name):
+            tgt, val = st.targets[0].id, st.value
+        elif isinstance(st, ast.AnnAssign) and isinstance(st.target, ast.Name) and st.value is not None:
+            tgt, val = st.target.id, st.value
+        if tgt is None or tgt in I.consts or tgt in I.funcs:
+            continue
+        try:
+            I._steps = 0
+            I.consts[tgt] = I.ev(val, {})
+        except (Unknown, Unsupported, Raised):
+            continue
 
 
 def falsy_until_exit(g, n: int, extra_ok: Optional[Callable[[object], bool]] = None) -> Optional[List[int]]:
@@ -814,38 +856,143 @@ def falsy_until_exit(g, n: int, extra_ok: Optional[Callable[[object], bool]] = N
     return only_nodes_until_exit(g, succ, allowed)
 
 
+PITFALL_SUFFIXES = (b"\n", b"\r\n", b"\r", b"\n\n", b" ", b"\t", b"\x00", b"\x0b", b"\x0c", b"\x85", b"\xa0")
+PITFALL_PREFIXES = (b"\n", b"\r\n", b" ", b"\t", b"\x00")
+
+
+def validator_domain(bases: Sequence[bytes]) -> List[bytes]:
+    """Every byte value alone / leading / trailing, plus the classic pitfalls of validators rewritten as a regex,
+    a set test or a translate table: trailing LF / CRLF (``$`` matches before a final newline), embedded NUL,
+    empty string, leading and trailing blanks."""
+    singles = [bytes([v]) for v in range(256)]
+    dom = [b""] + singles + [b"a" + x for x in singles] + [x + b"A" for x in singles] + [b"1" + x + b"2" for x in singles]
+    dom += [b"\n", b"\r\n", b" ", b"0x1", b"+1", b"-1", b" 1", b"1 ", b"1_0", b"ff", b"FF", b"Content-Length"]
+    for b in bases:
+        dom += [b] + [b + x for x in PITFALL_SUFFIXES] + [x + b for x in PITFALL_PREFIXES] + [b[:1] + b"\x00" + b[1:], b[:1] + b"\n" + b[1:], b + b"\n" + b]
+    return dom
+
+
+def check_token_validator(ctx, interp: Interp) -> None:
+    """_istoken accepts exactly 1*tchar (RFC 9110 5.6.2): by evaluating its source, whatever idiom it is written in."""
+    from sa.domains import TCHAR, fmt_set
+    f = ctx.func("web/_abnf.py", "_istoken")
+    dom = validator_domain([b"abc", b"X-Foo", b"Content-Length", b"GET"])
+    bad, acc = None, set()
+    for x in dom:
+        kind, val = interp.outcome(f, [x])
+        want = bool(x) and all(c in TCHAR for c in x)
+        if kind == "ok" and val and len(x) == 1:
+            acc.add(x[0])
+        if (kind != "ok" or bool(val) != want) and bad is None:
+            bad = (x, kind, val)
+    ctx.check(bad is None, "byte-class/exact", "twisted.web._abnf._istoken",
+              (f"_istoken({bad[0]!r}) gives {bad[1]} {bad[2]!r}: a method / header name must be exactly 1*tchar (a trailing LF, CR, NUL or blank in "
+               f"a header name is a header-injection / smuggling vector); accepted single bytes {fmt_set(acc)}") if bad else "",
+              detail=f"accepts exactly RFC 9110 1*tchar over {len(dom)} inputs (every byte value alone/leading/trailing/embedded, trailing LF/CRLF, NUL, blanks, empty)")
+
+
+def check_hex_validators(ctx, interp: Interp, rule_prefix: str = "byte-class") -> None:
+    """_ishexdigits accepts exactly 1*HEXDIG; _hexint returns int(x, 16) exactly there and raises ValueError elsewhere."""
+    from sa.domains import HEXDIG, fmt_set
+    dom = validator_domain([b"3", b"ff", b"1A", b"0"])
+    f = ctx.func("web/_abnf.py", "_ishexdigits")
+    bad, acc = None, set()
+    for x in dom:
+        kind, val = interp.outcome(f, [x])
+        want = bool(x) and all(c in HEXDIG for c in x)
+        if kind == "ok" and val and len(x) == 1:
+            acc.add(x[0])
+        if (kind != "ok" or bool(val) != want) and bad is None:
+            bad = (x, kind, val)
+    ctx.check(bad is None, rule_prefix + "/hexdigits-exact", "twisted.web._abnf._ishexdigits",
+              f"_ishexdigits({bad[0]!r}) gives {bad[1]} {bad[2]!r}: must accept exactly 1*HEXDIG; accepted single bytes {fmt_set(acc)}" if bad else "",
+              detail=f"accepts exactly 1*HEXDIG over {len(dom)} inputs")
+    f = ctx.func("web/_abnf.py", "_hexint")
+    bad = None
+    for x in dom:
+        kind, val = interp.outcome(f, [x])
+        want = bool(x) and all(c in HEXDIG for c in x)
+        good = (kind == "ok" and val == int(x, 16)) if want else (kind == "raise" and interp.is_sub(val, "ValueError"))
+        if not good and bad is None:
+            bad = (x, kind, val)
+    ctx.check(bad is None, rule_prefix + "/hexint", "twisted.web._abnf._hexint",
+              (f"_hexint({bad[0]!r}) gives {bad[1]} {bad[2]!r}: a chunk size must be 1*HEXDIG -> value and everything else (sign, 0x, blanks, underscore, "
+               "trailing LF, empty) -> ValueError") if bad else "",
+              detail=f"{len(dom)} size texts decided as RFC 9112 7.1 chunk-size")
+
+
+def _tests_token(e) -> bool:
+    return call_in(e, "_istoken") is not None
+
+
 def check_name_encoder(ctx, interp: Interp) -> None:
-    """_NameEncoder.encode returns only names validated by _istoken (directly or through the cache, which is
-    filled only after validation) - used by C19 (request header names) and C20 (response header names)."""
+    """_NameEncoder.encode hands out only names that passed _istoken: (1) every store into the process-wide
+    canonical-name cache - in encode() or in a helper it calls - happens after the name passed _istoken; (2) every
+    return of encode() is either dominated by a passed _istoken test or returns a value read from that cache;
+    (3) a failed test raises.  Used by C19 (request header names) and C20 (response header names)."""
+    from sa.effects import class_accesses
+    from sa.source import methods
     rel = "web/http_headers.py"
+    mod = ctx.mod(rel)
+    cls = ctx.cls(rel, "_NameEncoder")
+    ms = methods(cls)
     f = ctx.func(rel, "_NameEncoder.encode")
     g = ctx.cfg(f)
-    q = "twisted.web.http_headers._NameEncoder.encode"
-    val = [t for t in g.ids(lambda n: n.kind == "test") if call_in(g.node(t).ast, "_istoken")]
-    ctx.check(bool(val), "header-name/validated", q, "encode() no longer tests the name with _istoken")
+    qc = "twisted.web.http_headers._NameEncoder."
+    q = qc + "encode"
     cache_attr = "_canonicalHeaderCache"
-    rets = g.ids(lambda n: n.kind == "stmt" and isinstance(n.ast, ast.Return))
-    for r in rets:
+
+    def guarded_by_token(gr, n):
+        return gr.guarded(n, _tests_token, True)
+
+    def call_sites(name):
+        out = []
+        for mn, m in ms.items():
+            gm = ctx.cfg(m)
+            for n in calls_named(gm, "self." + name):
+                out.append((mn, gm, n))
+        return out
+
+    val = [t for t in g.ids(lambda n: n.kind == "test") if _tests_token(g.node(t).ast)]
+    helper_tests = []
+    for mn, m in ms.items():
+        if mn != "encode" and any(isinstance(c, ast.Call) and call_name(c) == "self." + mn for c in ast.walk(f)):
+            gm = ctx.cfg(m)
+            helper_tests += [(gm, t) for t in gm.ids(lambda n: n.kind == "test") if _tests_token(gm.node(t).ast)]
+    ctx.check(bool(val) or bool(helper_tests), "header-name/validated", q, "encode() no longer tests the name with _istoken")
+    # (1) cache stores
+    stores = [a for a in class_accesses(mod, cls, {cache_attr}, receivers={"self"}) if a.kind in ("setitem", "setdefault", "update", "augassign")]
+    for a in stores:
+        mn = a.func.split(".", 1)[1].split(".")[0]
+        gm = ctx.cfg(ms[mn]) if mn in ms else None
+        cons = ctx.construct("twisted.web.http_headers." + a.func, a.node)
+        ok = gm is not None and all(guarded_by_token(gm, n) for n in gm.ids_of(a.node))
+        wit = ""
+        if not ok and gm is not None and mn != "encode":
+            sites = call_sites(mn)
+            ok = bool(sites) and all(guarded_by_token(gs, n) for _, gs, n in sites)
+            bad = [(cm, gs, n) for cm, gs, n in sites if not guarded_by_token(gs, n)]
+            if bad:
+                wit = f"called from {bad[0][0]}: " + bad[0][1].describe(bad[0][1].path([bad[0][1].entry], [bad[0][2]]))
+        ctx.check(ok, "header-name/cache-after-validation", cons,
+                  "a name is stored in the process-wide canonical-name cache before it passed _istoken: the first use is refused, every later use of the same "
+                  "invalid name is served from the cache without any check (e.g. 'Content-Length ' accepted and ignored for framing)", witness=wit)
+    # (2) returns of encode
+    for r in g.ids(lambda n: n.kind == "stmt" and isinstance(n.ast, ast.Return)):
         v = g.node(r).ast.value
         vals = resolve_local(f, v) if v is not None else []
-        from_cache = any(cache_attr in src(x) for x in vals) or any(
-            isinstance(t.ast, ast.NamedExpr) and cache_attr in src(t.ast) and isinstance(v, ast.Name) and t.ast.target.id == v.id
-            for t in (g.node(i) for i in g.ids(lambda n: n.kind == "test")))
+        from_cache = bool(vals) and all(cache_attr in src(x) for x in vals)
+        if not from_cache and isinstance(v, ast.Name):
+            from_cache = any(isinstance(t.ast, ast.NamedExpr) and cache_attr in src(t.ast.value) and t.ast.target.id == v.id and g.dominates(t.id, r)
+                             for t in (g.node(i) for i in g.ids(lambda n: n.kind == "test")))
         if from_cache:
-            ctx.ok("header-name/validated", ctx.construct(q, g.node(r).ast), "value comes from the validated cache")
+            ctx.ok("header-name/validated", ctx.construct(q, g.node(r).ast), "value read from the cache (filled only after validation)")
             continue
-        ok = g.guarded(r, lambda e: call_in(e, "_istoken") is not None, True)
-        ctx.check(ok, "header-name/validated", ctx.construct(q, g.node(r).ast),
+        ctx.check(guarded_by_token(g, r), "header-name/validated", ctx.construct(q, g.node(r).ast),
                   "a header name that is not an RFC 9110 token is returned (not refused with InvalidHeaderName)",
                   witness=g.describe(g.path([g.entry], [r])))
-    stores = g.ids(lambda n: n.kind == "stmt" and isinstance(n.ast, (ast.Assign, ast.AugAssign)) and any(
-        isinstance(t, ast.Subscript) and cache_attr in src(t.value) for t in assigned_targets(n.ast)))
-    for s in stores:
-        ctx.check(g.guarded(s, lambda e: call_in(e, "_istoken") is not None, True), "header-name/cache-after-validation",
-                  ctx.construct(q, g.node(s).ast), "an unvalidated name is stored in the canonical-name cache and later returned without a check")
-    # raise on invalid: the F edge of the _istoken test reaches only a raise
-    for t in val:
-        fsucc = [d for d, l in g.succ[t] if l == "F"]
-        bad = only_nodes_until_exit(g, fsucc, lambda node: node.kind == "stmt" and isinstance(node.ast, ast.Raise))
-        ctx.check(bad is None, "header-name/invalid-raises", q, "an invalid header name does not raise InvalidHeaderName",
-                  witness=g.describe(bad))
+    # (3) failed test raises
+    for gm, t in [(g, t) for t in val] + helper_tests:
+        fsucc = [d for d, l in gm.succ[t] if l == "F"]
+        bad = only_nodes_until_exit(gm, fsucc, lambda node: node.kind == "stmt" and isinstance(node.ast, ast.Raise))
+        ctx.check(bad is None, "header-name/invalid-raises", q, "an invalid header name does not raise InvalidHeaderName", witness=gm.describe(bad))
